@@ -108,5 +108,5 @@ contract(
          + NEIGHBOUR.replace('mach_list', 'self._TrajectoryCalc__mach_list') + ' and '
          + BEYOND.replace('mach_list', 'self._TrajectoryCalc__mach_list') + ')'),
     ],
-    modifies=[],
+    modifies=[], modular=True, functional='drag_by_mach',
 )
